@@ -501,7 +501,9 @@ def gen_cases(chk, tier):
     return (gen_points(rng, tier) + gen_angles(rng, tier) + gen_lambert(rng, tier) + gen_poles(rng, tier)
             + gen_poles_options(rng2, tier) + gen_density(rng, tier)
             + gen_point_reps(rng3, tier) + gen_angle_reps(rng3, tier) + gen_lambert_reps(rng3, tier)
-            + gen_density_reps(rng3, tier) + gen_grids(np.random.default_rng([chk.seed, 205]), tier))
+            + gen_density_reps(rng3, tier) + gen_grids(np.random.default_rng([chk.seed, 205]), tier)
+            # call sequences come LAST: what they leave behind in the process cannot reach the single-call cases above
+            + gen_sessions(np.random.default_rng([chk.seed, 206]), tier))
 
 
 # --------------------------------------------------------------------------
@@ -666,6 +668,8 @@ def impl(c):
 
 
 def model_lines(c):
+    if c[0] == "session":    # the models are pure: one block of lines per step, from that step's arguments alone
+        return [ln for st in c[1] for ln in model_lines(st["case"])]
     if c[0] == "grid":
         return [common.model_line(c[1], [], [float(v) for v in p]) for p in c[3]]
     if c[0] in ("to_spherical", "to_cartesian", "lambert"):
@@ -686,6 +690,13 @@ def model_lines(c):
 
 
 def encode(c):
+    if c[0] == "session":
+        return {"fn": "session", "session": True, "pattern": c[2],
+                "steps": [dict({k: v for k, v in st.items() if k != "case"}, call=encode(st["case"])) for st in c[1]],
+                "how_to_read": "calls made one after the other in ONE process; `after` = what the caller does in place with the arrays that call returned "
+                               "(`which`: indices of the returned arrays, default all) before the next call; g_as / kernel_as: gridsteps as that integer type, kernel "
+                               "name as literal or as an equal string built at run time; bufs=reuse: the argument arrays are the objects of the previous step, "
+                               "overwritten with this step's data"}
     if c[0] == "grid":
         return {"fn": c[1], "grid": True, "arrangement": c[4], "axes": None if c[2] is None else [[hx(v) for v in ax] for ax in c[2]],
                 "points": [[hx(v) for v in p] for p in c[3]], "points_readable": [list(p) for p in c[3][:6]],
@@ -711,6 +722,8 @@ def encode(c):
 
 
 def decode(d):
+    if d.get("session"):
+        return ("session", [dict({k: v for k, v in st.items() if k != "call"}, case=decode(st["call"])) for st in d["steps"]], d.get("pattern", ""))
     if d.get("grid"):
         axes = None if d["axes"] is None else tuple([unhx(v) for v in ax] for ax in d["axes"])
         return ("grid", d["fn"], axes, [tuple(unhx(v) for v in p) for p in d["points"]], d["arrangement"])
@@ -727,6 +740,10 @@ def decode(d):
 
 def sample_of(c, r, m):
     e = encode(c)
+    for st in e.get("steps", ()):
+        for k in ("data", "points"):
+            if k in st["call"]:
+                st["call"][k] = st["call"][k][:6] + (["..."] if len(st["call"][k]) > 6 else [])
     for k in ("orientations", "data"):
         if k in e:
             e[k] = e[k][:9] + (["..."] if len(e[k]) > 9 else [])
@@ -812,6 +829,60 @@ def compare_poles_str(chk, c, r, m_axes, m0, m1, hist):
     return f"poles(ref_axes={c[1]!r}) output {j} (orientation {j // 3 if j is not None and j >= 0 else '?'}, component {j % 3 if j is not None and j >= 0 else '?'}): implementation {a!r} vs model {b!r}"
 
 
+def verdict_plain(c, r, m, mraw, hist, guard):
+    """one call of a conversion / plain poles / point_density (r: implementation, m: model, mraw: the model's raw totals
+    of a density case) -> disagreement text | None.  Shared by the single cases and the steps of a session."""
+    msg = _verdict_plain(c, r, m, mraw, hist, guard)
+    if msg and c[0] == "density" and mraw is not None and mraw[0] == "OK" and mraw[1] and all(math.isfinite(v) and abs(v) < 1e-12 for v in mraw[1]):
+        # EXCLUDED INPUT CLASS (the stated guard "raw grid mean != 0", met up to rounding): every raw total vanishes in exact
+        # arithmetic -- schmidt_count when no counter lies within the 1 % cap of any datum, e.g. 25 clustered data on an
+        # 11 x 11 grid: n * (0.5 / n) - 0.5.  What is left is the rounding of that sum: exactly 0 for NumPy's pairwise sum
+        # (0 / 0: nan everywhere), 4.4e-16 for the model's sequential sum (x / x: 1 everywhere), or the other way round.
+        # The summands are >= 1e-3 in size, so a total below 1e-12 is rounding noise.  Counted in the evidence, not compared.
+        guard["raw_totals_vanish_excused"] = guard.get("raw_totals_vanish_excused", 0) + 1
+        return None
+    return msg
+
+
+def _verdict_plain(c, r, m, mraw, hist, guard):
+    flat = r[1] if r[0] == "OK" else []
+    # the model raises where NumPy array arithmetic yields nan (0/0): map one onto the other
+    if m[0] == "ERR":
+        ok = (r[0] == "ERR" and r[1] == m[1]) or (m[1] == "DivZero" and r[0] == "OK" and any(math.isnan(v) for v in flat))
+        hist["model_err:" + m[1]] = hist.get("model_err:" + m[1], 0) + 1
+        if not ok:
+            return f"model raises {m[1]}, implementation: {r[:2] if r[0] == 'ERR' else flat[:6]}"
+        return None
+    if r[0] == "ERR":
+        return f"implementation raises {r[1]}: {r[2]}; model returns values"
+    rtol = 1e-12
+    if c[0] == "density":
+        rtol = 1e-10
+        raw = mraw[1]
+        guard["cases"] += 1
+        fin = [v for v in raw if math.isfinite(v)]
+        if len(fin) != len(raw) or not fin:
+            if all(math.isnan(v) or math.isinf(v) for v in flat[2 * c[3] ** 2:]) or not all(map(math.isfinite, m[1])):
+                guard["nonfinite_both_sides"] += 1
+        else:
+            ma = sum(abs(v) for v in fin) / len(fin)
+            ratio = abs(sum(fin) / len(fin)) / ma if ma > 0 else 0.0
+            if guard["raw_mean_over_mean_abs_min"] is None or ratio < guard["raw_mean_over_mean_abs_min"]:
+                guard["raw_mean_over_mean_abs_min"] = ratio
+            if ratio < 1e-6:
+                guard["below_1e-6"] += 1
+                return None  # the normalisation divides by (almost) zero: not comparable
+    okc, j = common.vec_close(flat, m[1], rtol=rtol)
+    if not okc:
+        if c[0] == "density" and near_threshold(c):
+            guard["near_threshold_excused"] += 1
+            return None
+        a = flat[j] if 0 <= j < len(flat) else None
+        b = m[1][j] if 0 <= j < len(m[1]) else None
+        return f"{c[0]} output {j}: implementation {a!r} vs model {b!r}"
+    return None
+
+
 def compare(chk, cases):
     """Differential run: public functions vs extracted model.  Returns disagreements."""
     lines, idx = [], []
@@ -826,6 +897,11 @@ def compare(chk, cases):
                                                  "nonfinite_both_sides": 0, "near_threshold_excused": 0})
     for c, (i0, k) in zip(cases, idx):
         m = mres[i0]
+        if c[0] == "session":
+            msg = compare_session(chk, c, mres[i0:i0 + k], hist, guard)
+            if msg:
+                bad.append((c, msg))
+            continue
         r = impl(c) if c[0] != "grid" else None
         key = c[0] if c[0] != "density" else f"density:{KERNELS[c[1]]}:{'axial' if c[2] else 'nonaxial'}"
         if c[0] == "poles":
@@ -849,41 +925,9 @@ def compare(chk, cases):
         chk.note_case(repr(encode(c)), nontrivial=not trivial, sample=None)
         if len(chk.cov["samples"]) < 6 and hist[key] == 1 and c[0] in ("to_spherical", "lambert", "poles", "density"):
             chk.cov["samples"].append(sample_of(c, r, m))
-        # the model raises where NumPy array arithmetic yields nan (0/0): map one onto the other
-        if m[0] == "ERR":
-            ok = (r[0] == "ERR" and r[1] == m[1]) or (m[1] == "DivZero" and r[0] == "OK" and any(math.isnan(v) for v in flat))
-            hist["model_err:" + m[1]] = hist.get("model_err:" + m[1], 0) + 1
-            if not ok:
-                bad.append((c, f"model raises {m[1]}, implementation: {r[:2] if r[0] == 'ERR' else flat[:6]}"))
-            continue
-        if r[0] == "ERR":
-            bad.append((c, f"implementation raises {r[1]}: {r[2]}; model returns values"))
-            continue
-        rtol = 1e-12
-        if c[0] == "density":
-            rtol = 1e-10
-            raw = mres[i0 + 1][1]
-            guard["cases"] += 1
-            fin = [v for v in raw if math.isfinite(v)]
-            if len(fin) != len(raw) or not fin:
-                if all(math.isnan(v) or math.isinf(v) for v in flat[2 * c[3] ** 2:]) or not all(map(math.isfinite, m[1])):
-                    guard["nonfinite_both_sides"] += 1
-            else:
-                ma = sum(abs(v) for v in fin) / len(fin)
-                ratio = abs(sum(fin) / len(fin)) / ma if ma > 0 else 0.0
-                if guard["raw_mean_over_mean_abs_min"] is None or ratio < guard["raw_mean_over_mean_abs_min"]:
-                    guard["raw_mean_over_mean_abs_min"] = ratio
-                if ratio < 1e-6:
-                    guard["below_1e-6"] += 1
-                    continue  # the normalisation divides by (almost) zero: not comparable
-        okc, j = common.vec_close(flat, m[1], rtol=rtol)
-        if not okc:
-            if c[0] == "density" and near_threshold(c):
-                guard["near_threshold_excused"] += 1
-                continue
-            a = flat[j] if 0 <= j < len(flat) else None
-            b = m[1][j] if 0 <= j < len(m[1]) else None
-            bad.append((c, f"{c[0]} output {j}: implementation {a!r} vs model {b!r}"))
+        msg = verdict_plain(c, r, m, mres[i0 + 1] if c[0] == "density" else None, hist, guard)
+        if msg:
+            bad.append((c, msg))
     return bad
 
 
@@ -1047,13 +1091,18 @@ def eval_grid(c):
     outs = f(*args)
     if [_bytes(a) for a in args] != before:
         raise RuntimeError("the call changed its arguments")
+    return read_grid(args, outs, I, K), outs
+
+
+def read_grid(args, outs, I, K):
+    """the outputs of one call, one row per point (flat order of the points)"""
     full = np.broadcast_shapes(*[np.shape(a) for a in args])
     res = np.full((K, len(outs)), np.nan)
     for d, o in enumerate(outs):
         o = np.asarray(o, dtype=np.float64)
         o = np.broadcast_to(o, full) if o.shape != full else o           # an output may have the shape of the arguments it depends on
         res[I.reshape(-1), d] = o.reshape(-1)
-    return res, outs
+    return res
 
 
 def grid_fails(c):
@@ -1063,6 +1112,13 @@ def grid_fails(c):
         res, outs = eval_grid(c)
     except Exception as e:  # noqa: BLE001
         return [f"{fn} on arguments arranged as {arr} raised {type(e).__name__}: {e}"]
+    return grid_judge(c, res, outs)
+
+
+def grid_judge(c, res, outs):
+    """the single-point judgements on the outputs `res` (one row per point) of one call that returned the arrays `outs`"""
+    import pydrex.geometry as geo
+    _, fn, axes, pts, arr = c
     back = None
     if fn == "to_spherical":
         if outs is not None:      # the round trip feeds the returned arrays back, as a caller does
@@ -1145,6 +1201,12 @@ def compare_grid(chk, c, mres, hist):
             res, _ = eval_grid(c)
     except Exception as e:  # noqa: BLE001
         return f"{fn} on arguments arranged as {arr}: implementation raises {type(e).__name__}: {e}"
+    return grid_verdict(c, res, mres)
+
+
+def grid_verdict(c, res, mres):
+    """outputs `res` (one row per point) of one call against the model's single-point entries"""
+    _, fn, axes, pts, arr = c
     for q, m in enumerate(mres):
         got = list(res[q])
         if m[0] == "ERR":
@@ -1159,6 +1221,421 @@ def compare_grid(chk, c, mres, hist):
 
 
 # --------------------------------------------------------------------------
+# CALL SEQUENCES IN ONE PROCESS (added after seeded change C20f: the counting grid of point_density moved into a
+# functools.lru_cache'd helper and the cached X / Y arrays were returned themselves, so a caller that rescales the
+# grid of one pole figure in place changes the grid every later call with the same gridsteps reports; every case of
+# this harness was ONE call judged on its own, apart from the repeated call of the poles option space).
+# A case ("session", steps, pattern) is what a caller does in one process: step = {"case": a point_density case | a
+# conversion on K points given as arrays ("grid" case, full arrangement), "after": what the caller does IN PLACE with
+# the arrays that call returned before it makes the next call (rescale / shift / overwrite with nan or 0 / swap two
+# outputs / reverse / transpose / re-shape; "none"), "g_as" / "kernel_as": gridsteps as int / NumPy integer, the
+# kernel name as the literal or as an equal string built at run time (arguments that compare equal without being the
+# same object), "bufs": "fresh" arrays or "reuse" = the array OBJECTS of the previous step overwritten with the new
+# data (arguments that are the same object without being equal)}.  Every step is compared with the model's result for
+# that step's arguments alone (the models are pure functions), arguments are digested around every call and around
+# the caller's modification of the results (argguard), and results of different steps must not share storage.
+# --------------------------------------------------------------------------
+SESSION_OPS = ("scale", "shift", "nan", "zero", "swap", "reverse", "transpose", "flatten_shape")
+G_AS = {"int": int, "int64": np.int64, "int32": np.int32, "intp": np.intp, "uint8": np.uint8}
+
+
+def step_fn(st):
+    c = st["case"]
+    return "point_density" if c[0] == "density" else {"lambert": "lambert_equal_area"}.get(c[1], c[1])
+
+
+def _after(rng, op):
+    a = {"op": op}
+    if op == "scale":      # another net radius (degrees), mirrored; or a plain mirror image that stays inside the disk
+        a["factors"] = [[-90.0, 90.0, 1.0], [-1.0, 1.0, 1.0], [2.0, 2.0, 100.0], [1.0, -1.0, 0.5]][int(rng.integers(0, 4))]
+    elif op == "shift":
+        a["by"] = float(rng.choice([7.0, -1.5, 1e3]))
+    if op in ("scale", "shift", "nan", "zero", "reverse", "transpose", "flatten_shape") and rng.integers(0, 3) == 0:
+        a["which"] = [int(rng.integers(0, 2))]           # only one of the returned arrays
+    return a
+
+
+def apply_after(outs, after):
+    """what the caller does, in place, with the arrays one call returned (read-only results cannot be modified: skipped)"""
+    op = (after or {}).get("op", "none")
+    if op == "none":
+        return
+    arrs = [o for o in outs if isinstance(o, np.ndarray)]
+    sel = [arrs[i] for i in after["which"] if i < len(arrs)] if after.get("which") is not None else arrs
+    sel = [a for a in sel if a.flags.writeable]
+    if op == "swap":
+        if len(sel) >= 2 and sel[0].shape == sel[1].shape:
+            t = sel[0].copy()
+            sel[0][...] = sel[1]
+            sel[1][...] = t
+        return
+    for i, a in enumerate(sel):
+        if op == "scale":
+            a *= after["factors"][i % len(after["factors"])]
+        elif op == "shift":
+            a += after["by"]
+        elif op == "nan":
+            a[...] = np.nan
+        elif op == "zero":
+            a[...] = 0.0
+        elif op == "reverse":
+            a[...] = a[::-1].copy()
+        elif op == "transpose":
+            a[...] = (a.T if a.ndim == 2 and a.shape[0] == a.shape[1] else a.reshape(-1)[::-1].reshape(a.shape)).copy()
+        elif op == "flatten_shape":
+            try:
+                a.shape = (a.size,)
+            except Exception:  # noqa: BLE001  (a view that cannot be re-shaped in place)
+                pass
+        else:
+            raise ValueError(op)
+
+
+def step_call(st, prev):
+    """(public function, argument list, keyword arguments, read-back map) of one step; `prev` = the data arrays of the
+    previous point_density / conversion step (for "bufs": "reuse")"""
+    import pydrex.geometry as geo
+    import pydrex.stats as stats
+    c = st["case"]
+    if c[0] == "density":
+        _, k, axial, g, sigma, w, d, _ = c
+        args = [np.array(d[:, j], dtype=np.float64) for j in range(3)]        # fresh, contiguous, owned by the caller
+        fn, I = stats.point_density, None
+        name = KERNELS[k] if st.get("kernel_as", "literal") == "literal" else "".join(list(KERNELS[k]))
+        kw = {"gridsteps": G_AS[st.get("g_as", "int")](g), "weights": w, "kernel": name, "axial": axial}
+        if k != 1:
+            kw["σ"] = sigma
+    else:
+        calls, I = present_grid(c)
+        args, kw = list(calls[0]), {}
+        fn = {"to_spherical": geo.to_spherical, "to_cartesian": geo.to_cartesian, "lambert": geo.lambert_equal_area}[c[1]]
+    if st.get("bufs") == "reuse" and prev is not None and len(prev) == len(args) and all(
+            isinstance(p, np.ndarray) and isinstance(a, np.ndarray) and p.shape == a.shape and p.dtype == a.dtype for p, a in zip(prev, args)):
+        for p, a in zip(prev, args):
+            np.copyto(p, a)               # the caller's buffers, new contents
+        args = list(prev)
+    return fn, args, kw, I
+
+
+def run_session(c, keep=False):
+    """-> one record per step: {"r": ("OK", flat outputs as returned, BEFORE the caller touches them) | ("ERR", code, msg),
+    "faults": [...], "outs": pristine copies of the returned arrays (keep=True)}"""
+    import argguard
+    recs, prev, held = [], None, []
+    for i, st in enumerate(c[1]):
+        rec = {"r": None, "faults": [], "outs": None}
+        recs.append(rec)
+        try:
+            with warnings.catch_warnings():
+                warnings.simplefilter("ignore")
+                fn, args, kw, I = step_call(st, prev)
+                outs, faults = argguard.guarded(fn, args, kw)
+                rec["faults"] += [f"step {i} ({step_fn(st)}): {f}" for f in faults]
+                arrs = [o for o in outs if isinstance(o, np.ndarray)]
+                if st["case"][0] == "density":
+                    rec["r"] = ("OK", [float(v) for v in np.concatenate([np.ravel(o) for o in outs])])
+                else:
+                    rec["r"] = ("OK", read_grid(args, outs, I, len(st["case"][3])))
+                if keep:
+                    rec["outs"] = [np.array(o, copy=True) for o in outs]
+                for j, harrs in held:     # the caller still holds the results of the earlier calls
+                    if any(np.may_share_memory(a, b) for a in arrs for b in harrs):
+                        rec["faults"].append(f"step {i} ({step_fn(st)}) returns arrays that share storage with the arrays returned by step {j}")
+                        break
+                if any(np.may_share_memory(a, b) for a in arrs for b in args if isinstance(b, np.ndarray)):
+                    rec["faults"].append(f"step {i} ({step_fn(st)}) returns arrays that share storage with its arguments")
+                snaps = argguard.snapshot(args, kw)
+                apply_after(outs, st.get("after"))
+                rec["faults"] += [f"step {i}: the caller modified the RESULT in place and an argument changed: {f}" for f in argguard.diff(snaps)]
+                held.append((i, arrs))
+                prev = args
+        except Exception as e:  # noqa: BLE001
+            rec["r"] = ("ERR", common.exc_code(e), str(e)[:200])
+    return recs
+
+
+def session_key(st):
+    """the arguments of a step as values (what the outcome may depend on)"""
+    e = encode(st["case"])
+    e.pop("kind", None)
+    return repr(sorted((k, repr(v)) for k, v in e.items()))
+
+
+def compare_session(chk, c, mres, hist, guard):
+    """every step of a call sequence against the model of that step's arguments alone"""
+    import argguard
+    steps, pattern = c[1], c[2]
+
+    def bump(k):
+        hist[k] = hist.get(k, 0) + 1
+    bump("session:pattern:" + pattern)
+    bump(f"session:steps:{len(steps)}")
+    seen_g = set()
+    for st in steps:
+        bump("session:fn:" + step_fn(st))
+        bump("session:after:" + (st.get("after") or {}).get("op", "none"))
+        if st["case"][0] == "density":
+            bump("session:gridsteps_as:" + st.get("g_as", "int"))
+            bump("session:kernel_as:" + st.get("kernel_as", "literal"))
+            bump("session:kernel:" + KERNELS[st["case"][1]])
+            if st["case"][3] in seen_g:
+                bump("session:call_after_modified_result_of_same_gridsteps")
+            if (st.get("after") or {}).get("op", "none") != "none":
+                seen_g.add(st["case"][3])
+        bump("session:bufs:" + st.get("bufs", "fresh"))
+    recs = run_session(c)
+    chk.note_case(repr(encode(c)), nontrivial=len(steps) > 1, sample=None)
+    if len(chk.cov["samples"]) < 10 and hist["session:pattern:" + pattern] == 1 and pattern in ("repeat", "same-gridsteps"):
+        chk.cov["samples"].append({"fn": "session", "pattern": pattern, "steps": [
+            {"fn": step_fn(st), "gridsteps": st["case"][3] if st["case"][0] == "density" else None, "after": st.get("after")} for st in steps]})
+    i0 = 0
+    for i, (st, rec) in enumerate(zip(steps, recs)):
+        sc = st["case"]
+        k = len(model_lines(sc))
+        ms = mres[i0:i0 + k]
+        i0 += k
+        if rec["faults"]:
+            return "point_density / the conversions are not pure functions of their arguments: " + "; ".join(rec["faults"][:2])
+        r = rec["r"]
+        if sc[0] == "density":
+            msg = verdict_plain(sc, r, ms[0], ms[1], hist, guard)
+        elif r[0] == "ERR":
+            msg = f"implementation raises {r[1]}: {r[2]}"
+        else:
+            msg = grid_verdict(sc, r[1], ms)
+        if msg:
+            hist_before = [(st2.get("after") or {}).get("op", "none") for st2 in steps[:i]]
+            return (f"step {i} of a {len(steps)}-call sequence ({step_fn(st)}; the caller's in-place modifications of earlier results: "
+                    f"{hist_before}): {msg}")
+    if pattern == "repeat":
+        # the same question asked through the shared helper: two calls with equal arguments, the first result scribbled over
+        try:
+            with warnings.catch_warnings():
+                warnings.simplefilter("ignore")
+                fn = step_call(steps[0], None)[0]
+                faults = argguard.fresh_result_probe(fn, lambda: step_call(steps[0], None)[1:3])
+        except Exception as e:  # noqa: BLE001
+            faults = [f"raised {type(e).__name__}: {e}"]
+        bump("session:fresh_result_probe:" + step_fn(steps[0]))
+        if faults:
+            return f"{step_fn(steps[0])}: " + "; ".join(faults[:2])
+    return None
+
+
+def gen_sessions(rng, tier):
+    """call sequences: the same call again after the caller modified the first result in place (every kind of
+    modification x every kernel / conversion); another data set / kernel / weight at the SAME gridsteps; grid sizes
+    interleaved g1, g2, g1; the caller's data buffers re-used with new contents; the three conversions on arrays; mixed
+    pipelines.  gridsteps are drawn from the sizes the single-call families use and from sizes nothing else uses."""
+    out = []
+    GS = (4, 5, 6, 7, 9, 10, 11, 13, 15)
+
+    def dens(g, k=None, n=None, axial=True, kind="random", sigma=10.0, w=1.0):
+        k = int(rng.integers(0, 5)) if k is None else k
+        if n is None:
+            n = int(rng.integers(3, 40)) if axial else int(rng.integers(101, 140))
+        if kind == "cluster":
+            d = np.array([0.2, 0.3, 1.0]) + 0.15 * rng.normal(size=(n, 3))
+            d /= np.linalg.norm(d, axis=1)[:, None]
+        else:
+            d = unit_vectors(rng, n)
+        return ("density", k, bool(axial), int(g), float(sigma), float(w), d, "session")
+
+    def conv(fn, shape):
+        K = int(np.prod(shape))
+        if fn == "lambert":
+            pts = [tuple(float(x) for x in v) for v in unit_vectors(rng, K)]
+            pts[0] = (0.0, 0.0, 1.0)
+        elif fn == "to_cartesian":
+            pts = [(float(rng.uniform(-math.pi, math.pi)), float(rng.uniform(0.05, math.pi - 0.05)), float(10.0 ** rng.uniform(-2, 2))) for _ in range(K)]
+        else:
+            m = 10.0 ** rng.uniform(-3, 3)
+            pts = [tuple(float(x) for x in m * rng.uniform(-1, 1, 3)) for _ in range(K)]
+        return ("grid", fn, None, pts, {"kind": "full", "shape": list(shape)})
+
+    def step(case, after=None, **o):
+        st = {"case": case, "after": after or {"op": "none"}}
+        if case[0] == "density":
+            st["g_as"] = o.get("g_as", str(rng.choice(list(G_AS))))
+            st["kernel_as"] = o.get("kernel_as", str(rng.choice(["literal", "built"])))
+        st["bufs"] = o.get("bufs", "fresh")
+        return st
+
+    def pick_g():
+        return int(GS[int(rng.integers(0, len(GS)))])
+
+    rep = 1 if tier == "quick" else 4
+    for _ in range(rep):
+        # (a) the same call again after the caller modified the first result in place: every modification, kernels in turn
+        for i, op in enumerate(SESSION_OPS + ("scale", "scale")):
+            c1 = dens(pick_g(), k=i % 5, axial=(i % 4 != 3), kind=str(rng.choice(["random", "cluster"])),
+                      w=float(rng.choice([1.0, 2.5])), sigma=float(rng.choice([10.0, 3.0])))
+            out.append(("session", [step(c1, _after(rng, op)), step(c1)], "repeat"))
+        # (b) the same gridsteps, another data set / kernel / weight / axial flag
+        for i in range(8):
+            g = pick_g()
+            op = str(SESSION_OPS[int(rng.integers(0, len(SESSION_OPS)))])
+            out.append(("session", [step(dens(g), _after(rng, op)), step(dens(g, w=float(rng.choice([1.0, 0.5]))))], "same-gridsteps"))
+        # (c) grid sizes interleaved: g1, g2, g1 (+ g2), every result modified
+        for i in range(5):
+            g1, g2 = (int(v) for v in rng.choice(GS, size=2, replace=False))
+            ops = [str(SESSION_OPS[int(v)]) for v in rng.integers(0, len(SESSION_OPS), size=3)]
+            steps = [step(dens(g1), _after(rng, ops[0])), step(dens(g2), _after(rng, ops[1])), step(dens(g1), _after(rng, ops[2]))]
+            if i % 2:
+                steps.append(step(dens(g2)))
+            out.append(("session", steps, "interleaved"))
+        # (d) the caller's data buffers re-used: same array objects, new contents (and the old results modified)
+        for i in range(5):
+            g, n = pick_g(), int(rng.integers(3, 30))
+            k = int(rng.integers(0, 5))
+            steps = [step(dens(g, k=k, n=n), _after(rng, "scale" if i % 2 else "none")), step(dens(g, k=k, n=n), bufs="reuse"),
+                     step(dens(g, k=k, n=n), bufs="reuse")]
+            out.append(("session", steps, "buffers-reused"))
+        # (e) the conversions on arrays: the same call again / other points of the same shape, buffers re-used
+        for fn in ("to_spherical", "to_cartesian", "lambert"):
+            for i, shape in enumerate(((6,), (2, 3), (3, 3), (4,))):
+                op = str(SESSION_OPS[int(rng.integers(0, len(SESSION_OPS)))])
+                c1 = conv(fn, shape)
+                c2 = c1 if i % 2 == 0 else conv(fn, shape)
+                out.append(("session", [step(c1, _after(rng, op)), step(c2, bufs="reuse" if i == 3 else "fresh")],
+                            "repeat" if c2 is c1 else "conversion-same-shape"))
+        # (f) mixed pipelines: conversions between two pole figures of the same resolution
+        for i in range(4):
+            g = pick_g()
+            fn = ("lambert", "to_spherical", "to_cartesian", "lambert")[i]
+            c1 = dens(g)
+            steps = [step(conv(fn, (5,)), _after(rng, "scale")), step(c1, _after(rng, str(rng.choice(SESSION_OPS)))),
+                     step(conv(fn, (5,)), _after(rng, "nan")), step(c1 if i % 2 else dens(g))]
+            out.append(("session", steps, "pipeline"))
+    return out
+
+
+def oracle_session(c):
+    """C20 read on a call sequence: the property quantifies over the INPUTS of a call, so (1) every call of the sequence
+    satisfies the clauses of its function, judged on what it returned (before the caller touches it), whatever was done
+    with the results of earlier calls, and (2) calls with equal inputs report equal results."""
+    fails = []
+    recs = run_session(c, keep=True)
+    first = {}
+    last_density = None
+    for i, (st, rec) in enumerate(zip(c[1], recs)):
+        sc, r = st["case"], rec["r"]
+        hist_before = [(st2.get("after") or {}).get("op", "none") for st2 in c[1][:i]]
+        where = (f"step {i} of {len(c[1])}: {step_fn(st)}" + (f"(gridsteps={sc[3]}, kernel={KERNELS[sc[1]]!r}, {len(sc[6])} data)" if sc[0] == "density" else f"{tuple(sc[4]['shape'])}")
+                 + f" after the caller's in-place modifications {hist_before} of the arrays returned by the earlier calls")
+        if r[0] == "ERR":
+            fails.append(f"{where}: raised {r[1]}: {r[2]}")
+            continue
+        if sc[0] == "density":
+            _, k, axial, g, sigma, w, d, _ = sc
+            if not axial and k in (0, 3, 4) and len(d) <= sigma**2:
+                continue  # outside the stated guard (scale = sqrt of a non-positive number)
+            X, Y, t = rec["outs"]
+            if not (np.shape(X) == np.shape(Y) == np.shape(t)) or np.size(t) != g * g:
+                fails.append(f"{where}: the estimates are not reported on {g} x {g} grid points: shapes {np.shape(X)}, {np.shape(Y)}, {np.shape(t)}")
+                continue
+            if np.all(np.isnan(t)):
+                continue  # raw grid mean 0: the stated guard
+            f1 = []
+            if not np.all(np.isfinite(t)):
+                f1.append("density estimates are not finite")
+            else:
+                if t.min() < 0:
+                    f1.append("negative density estimate")
+                if t.mean() < 1 - 1e-9:
+                    f1.append(f"grid mean {t.mean()} < 1")
+                if t.min() > 0 and abs(t.mean() - 1) > 1e-9:
+                    f1.append(f"grid mean {t.mean()} != 1 although nothing was clipped")
+            if not np.all(np.isfinite(X)) or not np.all(np.isfinite(Y)):
+                f1.append("grid points are not finite")
+            elif (X**2 + Y**2).max() > 1 + 1e-12:
+                f1.append(f"grid points outside the closed unit disk, max radius^2 = {float((X**2 + Y**2).max()):.6g}")
+            fails += [f"{where}: {f}" for f in f1]
+            last_density = (i, st, rec)
+        else:
+            fails += [f"{where}: {f}" for f in grid_judge(sc, r[1], rec["outs"])[:2]]
+        key = session_key(st)
+        if key in first:
+            j, o0 = first[key]
+            for q, (a, b) in enumerate(zip(o0, rec["outs"])):
+                if np.shape(a) != np.shape(b):
+                    fails.append(f"{where}: output {q} has shape {np.shape(b)}, the call with the same arguments at step {j} returned shape {np.shape(a)}")
+                    break
+                sc_ = max(1.0, float(np.nanmax(np.abs(a), initial=0.0)) if np.size(a) else 1.0)
+                if not np.allclose(a, b, rtol=0, atol=1e-9 * sc_, equal_nan=True):
+                    fails.append(f"{where}: output {q} differs from what the call with the same arguments returned at step {j} "
+                                 f"(max difference {float(np.nanmax(np.abs(np.asarray(a) - np.asarray(b)))):.6g})")
+                    break
+        else:
+            first[key] = (i, rec["outs"])
+    if last_density is not None and not fails:
+        # order / sign independence of the last pole figure of the sequence (further calls, nothing modified)
+        i, st, rec = last_density
+        sc = st["case"]
+        d, g = sc[6], sc[3]
+        if not (not sc[2] and sc[1] in (0, 3, 4) and len(d) <= sc[4]**2) and np.all(np.isfinite(rec["outs"][2])):
+            rng = np.random.default_rng(len(d) * 7919 + g)
+            t = rec["outs"][2]
+            scale = max(1.0, float(np.abs(t).max()))
+            variants = [("order", d[rng.permutation(len(d))])] + ([("sign", d * rng.choice([-1.0, 1.0], size=len(d))[:, None])] if sc[2] else [])
+            for name, dd in variants:
+                r2 = run_session(("session", [dict(st, case=sc[:6] + (dd, sc[7]), after={"op": "none"}, bufs="fresh")], "probe"), keep=True)[0]
+                if r2["r"][0] == "OK" and np.shape(r2["outs"][2]) == np.shape(t) and np.abs(r2["outs"][2] - t).max() > 1e-8 * scale and not near_threshold(sc):
+                    fails.append(f"step {i}: density depends on the {name} of the data")
+    return fails
+
+
+def fresh_oracle(c):
+    """the property oracle on case c in a NEW interpreter (what `./check C20 --replay` does): once one call sequence has
+    failed, the state of this process is suspect, and a witness must fail from a clean start to be worth reporting"""
+    import json
+    import os
+    import subprocess
+    import tempfile
+    with tempfile.NamedTemporaryFile("w", suffix=".json", delete=False) as f:
+        json.dump({"kind": "property-violation", "input": encode(c)}, f, default=str)
+    try:
+        p = subprocess.run([common.PY, os.path.join(common.VERIF, "harness", "main.py"), "C20", "--replay", f.name],
+                           capture_output=True, text=True, timeout=600, env=dict(os.environ, PYDREX_REPO=common.REPO))
+    except Exception:  # noqa: BLE001
+        return []
+    finally:
+        try:
+            os.unlink(f.name)
+        except OSError:
+            pass
+    fails = [ln[len("still fails: "):] for ln in p.stdout.splitlines() if ln.startswith("still fails: ")]
+    return fails if p.returncode == 1 else []
+
+
+def shrink_session(c, fails):
+    """smaller call sequences to try (each is confirmed in a fresh interpreter by the caller): the failing step alone, as
+    the plain single call it is; then the nearest earlier step whose result the caller modified + the failing step, with
+    few data; the same with all data"""
+    import re
+    m = re.match(r"step (\d+) of", fails[0]) if fails else None
+    if not m:
+        return []
+    j = int(m.group(1))
+    steps = c[1]
+    if j >= len(steps):
+        return []
+    out = [steps[j]["case"]]
+    same = [i for i in range(j) if (steps[i].get("after") or {}).get("op", "none") != "none" and step_fn(steps[i]) == step_fn(steps[j])
+            and (steps[i]["case"][0] != "density" or steps[i]["case"][3] == steps[j]["case"][3])]
+    for i in reversed(same[-2:]):
+        def small(st):
+            sc = st["case"]
+            return dict(st, case=sc[:6] + (sc[6][:4].copy(), sc[7])) if sc[0] == "density" and (sc[2] or sc[1] not in (0, 3, 4)) else st
+        pair_small = [small(steps[i]), dict(small(steps[j]), bufs="fresh")]
+        pair = [steps[i], dict(steps[j], bufs="fresh")]
+        out.append(("session", pair_small, c[2]))
+        if any(a["case"] is not b["case"] for a, b in zip(pair, pair_small)):
+            out.append(("session", pair, c[2]))
+    return out
+
+
+# --------------------------------------------------------------------------
 # the property oracle: a direct reading of C20 on the public API (search only)
 # --------------------------------------------------------------------------
 def oracle(c):
@@ -1168,7 +1645,9 @@ def oracle(c):
     with warnings.catch_warnings():
         warnings.simplefilter("ignore")
         try:
-            if c[0] == "grid":
+            if c[0] == "session":
+                fails += oracle_session(c)
+            elif c[0] == "grid":
                 fails += grid_fails(c)
             elif c[0] == "to_spherical":
                 if not any(float(v) for v in c[1]):
@@ -1268,11 +1747,46 @@ def search(chk, extra=()):
     found, seen = [], set()
 
     def pref(c):
+        if c[0] == "session":
+            return -1
         rep = rep_of(c)
         return REP_PREF.index(rep["dt"]) if rep else len(REP_PREF)
 
+    # Call sequences first.  A sequence that fails HERE may fail because of what an earlier sequence (of the correspondence
+    # run, of this search) left behind in the process, so every candidate is confirmed by the oracle in a fresh interpreter
+    # (<= `fresh` of them, ~2 s each; only on a tree that already failed), smallest first: the failing call alone -- reported
+    # as the plain single call it is --, then two calls with few data, then the sequence as generated.  Once a sequence has
+    # failed in this process, single calls are no longer judged in it (their outcome would depend on the history).
+    state_suspect, fresh = False, 12
     pool = sorted(extra, key=pref) + gen_cases(chk, "quick")
     for c in pool:
+        if c[0] == "session":
+            if fresh <= 0 or len([1 for x, _ in found if x[0] == "session"]) >= 2:
+                continue
+            sig0 = ("session", c[2], tuple(sorted({step_fn(st) for st in c[1]})))
+            if sig0 in seen or not oracle(c):
+                continue
+            state_suspect = True
+            fresh -= 1
+            fails = fresh_oracle(c)
+            if not fails:
+                continue
+            seen.add(sig0)
+            best = (c, fails)
+            for c1 in shrink_session(c, fails):
+                if fresh <= 0:
+                    break
+                fresh -= 1
+                f1 = fresh_oracle(c1)
+                if f1:
+                    best = (c1, f1)
+                    break
+            found.append(best)
+            if len(found) >= 4:
+                break
+            continue
+        if state_suspect:
+            continue
         rep = rep_of(c)
         sig0 = (c[0], c[1] if c[0] in ("poles", "grid") else None, rep["dt"] if rep else None)
         if c[0] == "grid":     # one witness per (function, kind of arrangement)
@@ -1325,6 +1839,55 @@ def shrink(c):
     return c
 
 
+# open findings of the unchanged tree (known_findings.json): legal inputs for which point_density returns NaN everywhere although
+# C20 says the estimates are finite.  The Coq statements carry the two guards (scale > 0, raw grid mean <> 0) explicitly; the
+# property text does not, so the witnesses are reported as KNOWN-FINDING while they reproduce.
+KEY_NAN_NONAXIAL = "C20:point_density:nonaxial-kamb-radius-nan"
+KEY_NAN_SCHMIDT = "C20:point_density:schmidt-coarse-grid-nan"
+
+
+def _finding_status(key):
+    for f in common.load_known_findings():
+        if f.get("key") == key:
+            return str(f.get("status", ""))
+    return None
+
+
+def known_density_findings(chk):
+    """evaluate the witnesses of the two recorded findings on the implementation; KNOWN-FINDING while they reproduce and are
+    listed as open (a `fixed:` entry suppresses nothing: a reproducing witness is then a violation)"""
+    common.use_repo_source()
+    import pydrex.stats as stats
+    rng = np.random.default_rng(20)
+    v = rng.normal(size=(50, 3))
+    v /= np.linalg.norm(v, axis=1)[:, None]
+    d = np.tile([[0.2, 0.3, 0.9327379053088815]], (3, 1))
+    wit = [(KEY_NAN_NONAXIAL, "point_density(50 unit vectors, gridsteps=11, kernel='kamb_count', axial=False) is NaN at every grid point "
+                              "(n <= sigma^2: the Kamb radius 1 - 2 sigma^2/(n + sigma^2) is <= 0 and the counting unit is the square root of a "
+                              "non-positive number; also linear_inverse_kamb / square_inverse_kamb)",
+            lambda: stats.point_density(*v.T, gridsteps=11, kernel="kamb_count", axial=False)),
+           (KEY_NAN_SCHMIDT, "point_density(3 x [0.2, 0.3, 0.9327379053088815], gridsteps=11, kernel='schmidt_count') is NaN at every grid point "
+                             "(no counter lies within the 1 % cap of a datum: every raw total is 0 and the normalisation is 0/0)",
+            lambda: stats.point_density(*d.T, gridsteps=11, kernel="schmidt_count"))]
+    for key, text, thunk in wit:
+        try:
+            with warnings.catch_warnings():
+                warnings.simplefilter("ignore")
+                t = np.asarray(thunk()[2], dtype=float)
+            repro = bool(np.all(np.isnan(t)))
+        except Exception:  # noqa: BLE001
+            repro = False
+        chk.cov.setdefault("known_finding_witnesses", {})[key] = "reproduces" if repro else "does not reproduce"
+        if not repro:
+            continue
+        st = _finding_status(key)
+        if st == "open":
+            chk.known_finding(f"{key}: {text}")
+        else:
+            chk.replay({"kind": "property-violation", "call": "pydrex.stats.point_density", "finding": key, "observed": [text],
+                        "required": "C20: density estimates are finite", "input": {"witness": key}})
+
+
 def run(chk):
     ok, br = proofs.prove(chk, FILES, PROP, groups=(GROUP,), gen_modules=("geometry", "density"))
     chk.cov["trusted_base"] = common.TRUSTED_COMMON + [
@@ -1355,6 +1918,11 @@ def run(chk):
         "given to to_spherical / to_cartesian / lambert_equal_area as K scalar calls, 1-D, column (K,1), row (1,K), 2-D grids of every factorisation, 3-D grids, Fortran-ordered and transposed copies, and (conversions) as arguments of "
         "DIFFERENT shapes broadcast against each other: (a,1,1)/(1,b,1)/(1,1,c), column x row + Python or 0-d scalar, np.meshgrid xy / ij, np.mgrid index grids; outputs are read back point by point and compared with the "
         "model's single-point entry, histogram shape:<fn>:<arrangement>. "
+        "CALL SEQUENCES in one process (after seeded change C20f; own random stream, run last; histograms session:pattern / after / fn / gridsteps_as / kernel_as / bufs): 2..4 calls of point_density (five kernels, axial and "
+        "non-axial, gridsteps 4..15 given as int / NumPy integers, kernel name as literal / equal string built at run time) and of the three conversions on arrays, where between the calls the caller modifies the arrays "
+        "the previous call RETURNED in place (rescale to another net radius / mirror, shift, overwrite with nan or 0, swap X and Y, reverse, transpose, re-shape; all of them or one) or overwrites its own argument buffers with new data: "
+        "the same call again, another data set / kernel / weight at the same gridsteps, grid sizes interleaved g1 g2 g1, buffers re-used, conversion / density pipelines; every step is compared with the model of that step's "
+        "arguments alone, arguments are digested around every call and around the caller's modification (argguard.guarded), results of different steps must not share storage, repeat sequences also go through argguard.fresh_result_probe. "
         "poles option space (own random stream, shuffled call order): all 24 case spellings of the six strings x random hkl x 1..17 orientations x "
         "hkl given as float/int list, tuple, int/float32/strided/read-only array or a view into the orientation stack x orientations given as "
         "C/Fortran/float32/int/strided/reversed/transposed/sub-block/read-only arrays x ref_axes positional/keyword/default; default hkl; illegal "
@@ -1371,6 +1939,7 @@ def run(chk):
         for name in run_malformed(chk):
             bad.append((("malformed", name), f"poles({name}) returns finite vectors that are not unit vectors"))
     chk.cov["disagreements"] = len(bad)
+    known_density_findings(chk)
     if ok and not bad:
         return
     found = search(chk, extra=[c for c, _ in bad])
@@ -1391,6 +1960,17 @@ def replay(d):
     if d.get("kind") != "property-violation":
         print("replay file names a broken obligation; re-run the check itself")
         return 1
+    if d.get("finding"):          # witness of a recorded finding (reported as a violation when it is not listed as open)
+        class _C:                   # minimal stand-in for the check object
+            cov, known, reps = {}, [], []
+            def known_finding(self, t): self.known.append(t)
+            def replay(self, p, **k): self.reps.append(p)
+        c = _C()
+        known_density_findings(c)
+        hit = [t for t in c.known if d["finding"] in t] + [p for p in c.reps if p.get("finding") == d["finding"]]
+        for h in hit:
+            print("still fails:", h if isinstance(h, str) else h["observed"][0])
+        return 1 if hit else 0
     fails = oracle(decode(d["input"]))
     for f in fails:
         print("still fails:", f)
